@@ -11,6 +11,7 @@
   Not proved: the analytic clause |ln|H| − ln(K/|A|^s)| ≤ 0.001 neper, decided on
   every run against A(z) built by polynomial multiplication in the driver.
 -/
+import Jb.Proofs.AllPole
 import Jb.Proofs.Lti
 import Jb.Proofs.Cepstrum
 import Jb.Proofs.LspStab
@@ -87,5 +88,24 @@ theorem response_is_convolution (alpha : K) (c : List K) (stage : Nat) (xs : Lis
     (mglsaRun alpha c (mglsaInit stage c.length) xs).getD n 0 =
       (Finset.range (n + 1)).sum fun k => (mglsaPulse alpha c stage xs.length).getD k 0 * xs.getD (n - k) 0 :=
   mglsaRun_convolution alpha c stage xs n hn
+
+/-- **At `alpha = 0` the filter coefficients are `[K, a₁ … a_m]`** with `a` the coefficients of `½(P + Q)` and `K` the
+    (floored) gain: the whole chain `lsp2lpc → ignorm → ·(−stage) → gnorm → gc2gc → ignorm → mc2b → gnorm → ·γ`
+    collapses (hypotheses: the two laws of `powf` that are used, for the positive gain). -/
+theorem coefficients_are_gain_and_lpc (b useLogGain : Bool) (stage : Nat) (hs : stage ≠ 0) (g : K) (lsp : List K)
+    (hmin : 0 < (Consts.minGain : K))
+    (hpow : Transc.pow (Transc.pow (lspGain useLogGain g) (-1 / (stage : K))) (1 / (-1 / (stage : K))) = lspGain useLogGain g)
+    (hne : Transc.pow (lspGain useLogGain g) (-1 / (stage : K)) ≠ 0) :
+    lspCoefficients ⟨b, true⟩ useLogGain stage (-1 / (stage : K)) 0 (g :: lsp) =
+      lspGain useLogGain g :: (lspRefPoly lsp).tail :=
+  lspCoefficients_alpha0_poly b useLogGain stage hs g lsp hmin hpow hne
+
+/-- **… and the cascade run with them is `1 / A(z)^stage`**: each section computes the all-pole difference equation
+    `y[n] = x[n] − Σ_{k≥1} c[k]·y[n−k]`, and `stage` sections iterate it. Together with the gain factor the vocoder
+    applies to the excitation this is `K / A(z)^stage`, `A = ½(P + Q)`, for `alpha = 0` — the formula of the
+    property as an identity of the code's arithmetic. -/
+theorem cascade_is_all_pole (c : List K) (hc : 2 ≤ c.length) (stage : Nat) (xs : List K) :
+    mglsaRun 0 c (mglsaInit stage c.length) xs = (allPoleRun c.tail)^[stage] xs :=
+  mglsa_cascade_allpole c hc stage xs
 
 end Jb.C13
